@@ -4,6 +4,11 @@ let () =
   let run =
     match fam with
     | "c20" -> Fam_c20.run
+    | "c01" -> Fam_parse.c01
+    | "c02" -> Fam_parse.c02
+    | "c05" -> Fam_parse.c05
+    | "c07" -> Fam_parse.c07
+    | "c12" -> Fam_parse.c12
     | _ -> prerr_endline ("unknown family " ^ fam); exit 2
   in
   let out = Buffer.create (1 lsl 16) in
